@@ -144,12 +144,21 @@ def main(ctx):
             for agent in ({"kind": "scripted", "script": [1, 0, 1]}, {"kind": "eps", "eps": 0.5, "seed": S, "alpha": 0.5}):
                 cfg = {"shape": shape, "losses": losses, "agent": agent, "samplers": "with_halton"}
                 cells.append({"cfg": cfg, "mode": "line", "bound": 1 if ctx.quick or sum(shape) > 4 else 2, "max_execs": 30000})
+    # a batch that fails (before or after the agent's action was taken) followed by further sessions: the exchange must recover
+    for shape in ([[2, 2], [1, 3], [3, 2]] if ctx.quick else [[2, 2], [1, 3], [3, 2], [2, 2, 2], [1, 1, 3], [3, 3]]):
+        for si in range(len(shape) - 1):
+            for bi in range(shape[si]):
+                for where in ("before_get", "after_get"):
+                    for agent in ({"kind": "scripted", "script": [1, 0, 0, 1]}, {"kind": "scripted", "script": [0, 1]}, {"kind": "eps", "eps": 0.5, "seed": S, "alpha": 0.5}):
+                        cfg = {"shape": shape, "losses": "mixed", "agent": agent, "samplers": "with_halton", "fault": {"session": si, "batch": bi, "where": where}}
+                        cells.append({"cfg": cfg, "mode": "sync", "bound": None, "max_execs": 20000, "por": True})
     # second driver: the real Calibrator.calibrate (real samplers, model, loss), one calibrate() call per session
     for shape in ([[2], [1, 2], [2, 2]] if ctx.quick else [[1], [2], [3], [1, 1], [1, 2], [2, 2], [2, 1, 2]]):
         for agent in ({"kind": "scripted", "script": [1, 0, 1]}, {"kind": "eps", "eps": 0.5, "seed": S, "alpha": 0.5}):
             for samplers in ("with_halton", "without_halton"):
                 cells.append({"cfg": {"shape": shape, "losses": "real", "agent": agent, "samplers": samplers, "seed": S}, "mode": "sync", "bound": None, "max_execs": 4000, "driver": "calibrator", "por": True})
-    ctx.bounds = {"shapes": shapes, "second_driver": "real Calibrator.calibrate on [2],[1,2],[2,2] (thorough: 7 shapes), all interleavings modulo independence", "tierA": "ALL interleavings modulo commutation of independent steps (sleep-set reduction) for every shape and configuration; unreduced all-interleavings cross-check on shapes [1],[2]; unreduced search with preemption bound " + ("2" if ctx.quick else "3") + " on every fourth configuration of the larger shapes",
+    ctx.bounds = {"shapes": shapes, "faults": "a batch failing before / after the agent's action was taken, at every batch of every non-final session of [2,2],[1,3],[3,2] (thorough: 6 shapes), followed by the remaining sessions",
+                  "second_driver": "real Calibrator.calibrate on [2],[1,2],[2,2] (thorough: 7 shapes), all interleavings modulo independence", "tierA": "ALL interleavings modulo commutation of independent steps (sleep-set reduction) for every shape and configuration; unreduced all-interleavings cross-check on shapes [1],[2]; unreduced search with preemption bound " + ("2" if ctx.quick else "3") + " on every fourth configuration of the larger shapes",
                   "tierB_shapes": tierb_shapes, "tierB_preemption_bound": "1" if ctx.quick else "2 (1 for > 4 batches)",
                   "agents": "all scripted action sequences over {0,1} (length <= 3 quick / 4 thorough) + eps-greedy eps {0,.5} seeds {S,S+1}",
                   "loss_scripts": list(rh.LOSS_SCRIPTS), "sampler_sets": ["with_halton", "without_halton"], "cells": len(cells)}
